@@ -5,7 +5,7 @@
      xds_type, ty_eqb, is_wildcard, warming_deps, requires_names_mod, is_debug, should_set_watched
      name sets:   star, mem, ins, del, norm, diff, subset, seteq
      wr, watched, empty_watched, upd, record
-     req, dreq, nil_policy, outcome
+     req, dreq, outcome
      should_respond, delta_watched_resources, should_respond_delta, send, send_delta
      op, step, run
 
@@ -132,27 +132,21 @@ Record req := mkReq { r_ty : xds_type; r_names : list N; r_nonce : N; r_err : op
 Record dreq := mkDReq {
   d_ty : xds_type; d_sub : list N; d_unsub : list N; d_init : list N; d_nonce : N; d_err : option N }.
 
-(* What the ErrorDetail closure of ShouldRespond / shouldRespondDelta does when the type has no
-   watch (Proxy.UpdateWatchedResource hands it nil):
-   NilCrash  = the closure dereferences nil (code as first read: candidate defect K14);
-   NilIgnore = the closure returns nil for nil, UpdateWatchedResource then deletes nothing. *)
-Inductive nil_policy := NilCrash | NilIgnore.
-
-(* Crash = Go panic in the stream goroutine; Resp b s = (respond?, ResourceDelta.Subscribed);
+(* Crash = Go panic in the stream goroutine (what the harness reports when the real code panics; no
+   modelled branch produces it); Resp b s = (respond?, ResourceDelta.Subscribed);
    Done = a send step completed *)
 Inductive outcome := Crash | Resp (respond : bool) (subscribed : list N) | Done.
 
 (* ------------------------------------------------------------------ SotW *)
 
 (* the ErrorDetail branch shared by ShouldRespond and shouldRespondDelta:
-   w.UpdateWatchedResource(url, func(wr) { wr.LastError = msg; return wr }) ; return false *)
-Definition nack (p : nil_policy) (st : watched) (t : xds_type) (m : N) : outcome * watched :=
+   w.UpdateWatchedResource(url, func(wr) { if wr == nil { return nil }; wr.LastError = msg; return wr })
+   ; return false.   With no watch the closure returns nil and UpdateWatchedResource deletes nothing
+   (repaired by /repo commit a0e93fb; before it the closure dereferenced nil, K14). *)
+Definition nack (st : watched) (t : xds_type) (m : N) : outcome * watched :=
   match st t with
   | Some w => (Resp false [], upd st t (Some (set_err w m)))
-  | None => match p with
-            | NilCrash => (Crash, st)
-            | NilIgnore => (Resp false [], st)
-            end
+  | None => (Resp false [], st)
   end.
 
 (* Proxy.NewWatchedResource: fresh watch, then every existing watch of a warming dependency
@@ -172,10 +166,10 @@ Definition should_unsubscribe (r : req) : bool :=
 
 (* pkg/xds/server.go ShouldRespond with Watcher = *model.Proxy (features.EnableUnsafeAssertions
    off, its default) *)
-Definition should_respond (p : nil_policy) (st : watched) (r : req) : outcome * watched :=
+Definition should_respond (st : watched) (r : req) : outcome * watched :=
   let t := r_ty r in
   match r_err r with
-  | Some m => nack p st t m
+  | Some m => nack st t m
   | None =>
     if should_unsubscribe r then (Resp false [], upd st t None)
     else
@@ -219,10 +213,10 @@ Definition delta_watched_resources (existing : list N) (r : dreq) : list N * boo
   (del star res, wc, ch).
 
 (* pilot/pkg/xds/delta.go shouldRespondDelta (features.EnableUnsafeAssertions off) *)
-Definition should_respond_delta (p : nil_policy) (st : watched) (r : dreq) : outcome * watched :=
+Definition should_respond_delta (st : watched) (r : dreq) : outcome * watched :=
   let t := d_ty r in
   match d_err r with
-  | Some m => nack p st t m
+  | Some m => nack st t m
   | None =>
     match st t with
     | None =>
@@ -271,22 +265,22 @@ Definition op_ty (o : op) : xds_type :=
   | OReq r => r_ty r | ODReq r => d_ty r | OSend t _ _ => t | OSendDelta t _ _ _ => t
   end.
 
-Definition step (p : nil_policy) (st : watched) (o : op) : outcome * watched :=
+Definition step (st : watched) (o : op) : outcome * watched :=
   match o with
-  | OReq r => should_respond p st r
-  | ODReq r => should_respond_delta p st r
+  | OReq r => should_respond st r
+  | ODReq r => should_respond_delta st r
   | OSend t n ok => (Done, send st t n ok)
   | OSendDelta t n ok nn => (Done, send_delta st t n ok nn)
   end.
 
 (* a crash ends the process: the remaining ops are not executed *)
-Fixpoint run (p : nil_policy) (st : watched) (ops : list op) : list outcome * watched :=
+Fixpoint run (st : watched) (ops : list op) : list outcome * watched :=
   match ops with
   | [] => ([], st)
   | o :: ops' =>
-    match step p st o with
+    match step st o with
     | (Crash, st') => ([Crash], st')
-    | (out, st') => let '(outs, st'') := run p st' ops' in (out :: outs, st'')
+    | (out, st') => let '(outs, st'') := run st' ops' in (out :: outs, st'')
     end
   end.
 
